@@ -63,6 +63,17 @@ def abc_three_term(v):
         check('first-order', approx(JAC.at(1, a, b, x), A * x + B, 1e-9))
 
 
+def _coords(kind):
+    """a coordinate input of the given rank: (the argument, the value at one arbitrary element, its dims, that element's index)"""
+    if kind == 'scalar':
+        x = Real('x')
+        return x, x, (), ()
+    dims = (Int('N', 1),) if kind == '1d' else (Int('H', 1), Int('W', 1))
+    xin = Array('x', dims)
+    ix = tuple(idx(d, 'e%d' % k) for k, d in enumerate(dims))
+    return xin, elem(xin, *ix), dims, ix
+
+
 class ClenshawInv(Invariant):
     """loop `for n in range(M-2, -1, -1)` of jacobi_sum_clenshaw, indexed by the next n.  With S(r) = sum_{k<r} s_k P_k (ghost prefix
     sum, defined by S(0) = 0, S(r+1) = S(r) + s_r P_r) the rows n+1, n+2 of `alphas` already written satisfy
@@ -70,19 +81,20 @@ class ClenshawInv(Invariant):
         S(M+1) = alphas[0]                                                          (n = -1, the loop's exit)
     which is Clenshaw's identity (c_k: third coefficient of the three-term recurrence, as contracted in C07 recurrence_abc/dlmf).
     a, b, c, _ are re-assigned before use in the body (dead at the loop head)."""
-    def __init__(self, S, P, Cc, tag):
-        self.S, self.P, self.Cc, self.tag = S, P, Cc, tag
+    def __init__(self, S, P, Cc, tag, col=None):
+        self.S, self.P, self.Cc, self.tag, self.col = S, P, Cc, tag, col or ((), ())      # col = (coordinate dims, element index)
 
     def _rel(self, env, al, n):
         M = env['M']
+        at = lambda r: elem(al, r, *self.col[1])
         if n >= 0:
-            return eq(self.S(M + 1), self.S(n + 1) + elem(al, n + 1) * self.P(n + 1) - self.Cc(n + 1) * elem(al, n + 2) * self.P(n))
-        return eq(self.S(M + 1), elem(al, 0))
+            return eq(self.S(M + 1), self.S(n + 1) + at(n + 1) * self.P(n + 1) - self.Cc(n + 1) * at(n + 2) * self.P(n))
+        return eq(self.S(M + 1), at(0))
 
     def state(self, env, n):
         from pvc.symcore import ctx
         M = env['M']
-        al = Array(ctx.fresh_name('alphas_' + self.tag), (M + 1,))
+        al = Array(ctx.fresh_name('alphas_' + self.tag), (M + 1,) + tuple(self.col[0]))
         assume(self._rel(env, al, n))
         return {'alphas': al, 'a': env.get('a'), 'b': env.get('b'), 'c': env.get('c'), '_': env.get('_')}
 
@@ -90,11 +102,11 @@ class ClenshawInv(Invariant):
         yield 'clenshaw-identity', self._rel(env, env['alphas'], n)
 
 
-@harness('C10', 'jacobi_sum_clenshaw/any-length', variants=['scalar'], fuc=['prysm.polynomials.jacobi.jacobi_sum_clenshaw',
+@harness('C10', 'jacobi_sum_clenshaw/any-length', variants=['scalar', '1d', '2d'], fuc=['prysm.polynomials.jacobi.jacobi_sum_clenshaw',
                                                                             'prysm.polynomials.jacobi._initialize_alphas'])
 def clenshaw_any(kind):
     """jacobi_sum_clenshaw(s, a, b, x) = sum_{k<len(s)} s_k P_k^(a,b)(x) for coefficient vectors of EVERY length (symbolic length,
-    symbolic coefficients, parameters and point): the descending loop is cut by Clenshaw's identity as its invariant (ClenshawInv),
+    symbolic coefficients and parameters; a scalar point, or an arbitrary element of a 1-D or 2-D coordinate array of symbolic extent): the descending loop is cut by Clenshaw's identity as its invariant (ClenshawInv),
     the explicit sum is a ghost prefix-sum function unfolded at the indices the proof touches.  Modular on recurrence_abc: the callee
     is replaced by opaque coefficient functions (a_k, b_k, c_k) about which only its contract is known -- P_0 = 1, P_1 = a_0 x + b_0,
     P_{k+1} = (a_k x + b_k) P_k - c_k P_{k-1} for k >= 1 -- which is what C07 recurrence_abc/dlmf proves of the real body against
@@ -103,13 +115,16 @@ def clenshaw_any(kind):
     assume(And(a > -1, b > -1))
     L = Int('L', 1)
     s = Array('s', (L,))
-    x = Real('x')
+    xin, x, dims, ix = _coords(kind)
+    pick = lambda arr: elem(arr, *ix) if ix else arr
     if MODE != 'symbolic':
-        out = call(P + 'jacobi.jacobi_sum_clenshaw', s, a, b, x)
+        out = call(P + 'jacobi.jacobi_sum_clenshaw', s, a, b, xin)
         want = 0
         for k in range(L):
             want = want + s[k] * JAC.at(k, a, b, x)
-        check('explicit-sum', approx(out, want, 1e-7))
+        if dims:
+            check('shape', shape_is(out, *dims))
+        check('explicit-sum', approx(pick(out), want, 1e-7))
         return
     import z3
     from pvc import symcore as sc
@@ -118,6 +133,7 @@ def clenshaw_any(kind):
         fs[nm] = z3.Function(nm, z3.IntSort(), z3.RealSort())
         sc.ATOM_NAMES.add(nm)
     app = lambda nm, r: sc.SReal(fs[nm](z3.simplify(sc.lift(r).z)))
+    sc.ctx.prefer_cli = True
     sc.ctx.axiom_log.add('ghost:clenshaw_prefix_sum S(0) = 0, S(r) = S(r-1) + s[r-1] P_{r-1}(x) (definition of the explicit sum, instantiated at use sites)')
     sc.ctx.axiom_log.add('callee-contract:prysm.polynomials.jacobi.recurrence_abc = three-term recurrence coefficients of the spec function jacobi '
                          '(C07 recurrence_abc/dlmf), instantiated at use sites')
@@ -143,9 +159,152 @@ def clenshaw_any(kind):
     def abc(n, al, be):
         return app('callee_recurrence_a', n), app('callee_recurrence_b', n), app('callee_recurrence_c', n)
     with stub('prysm.polynomials.jacobi', 'recurrence_abc', abc):
-        with cut_loops(P + 'jacobi.jacobi_sum_clenshaw', {0: ClenshawInv(S, Pk, lambda k: app('callee_recurrence_c', k), 'it')}) as f:
-            out = f(s, a, b, x)
-    check('explicit-sum', approx(out, S(L), 1e-7))
+        with cut_loops(P + 'jacobi.jacobi_sum_clenshaw', {0: ClenshawInv(S, Pk, lambda k: app('callee_recurrence_c', k), 'it', (dims, ix))}) as f:
+            out = f(s, a, b, xin)
+    if dims:
+        check('shape', shape_is(out, *dims))
+    check('explicit-sum', approx(pick(out), S(L), 1e-7))
+
+
+class QbfsClenshawInv(Invariant):
+    """loop `for i in range(M-2, -1, -1)` of clenshaw_qbfs, indexed by the next i: with S(r) = sum_{k<r} b_k P_k (ghost prefix sum) and
+    Forbes' auxiliary polynomials P_0 = 2, P_1 = 6 - 8x, P_{k+1} = (2 - 4x) P_k - P_{k-1} (oe-18-19-19700 A.4), the rows i+1, i+2 of
+    `alphas` satisfy   S(M+1) = S(i+1) + alphas[i+1] P_{i+1} + alphas[i+2] (P_{i+2} - (2 - 4x) P_{i+1})   for every i >= -1."""
+    def __init__(self, S, P, x, tag, col=None):
+        self.S, self.P, self.x, self.tag, self.col = S, P, x, tag, col or ((), ())
+
+    def _rel(self, env, al, i):
+        M = env['M']
+        at = lambda r: elem(al, r, *self.col[1])
+        return eq(self.S(M + 1), self.S(i + 1) + at(i + 1) * self.P(i + 1)
+                  + at(i + 2) * (self.P(i + 2) - (2 - 4 * self.x) * self.P(i + 1)))
+
+    def state(self, env, i):
+        from pvc.symcore import ctx
+        M = env['M']
+        al = Array(ctx.fresh_name('alphas_' + self.tag), (M + 1,) + tuple(self.col[0]))
+        assume(self._rel(env, al, i))
+        return {'alphas': al}
+
+    def holds(self, env, i):
+        yield 'clenshaw-identity', self._rel(env, env['alphas'], i)
+
+
+@harness('C10', 'clenshaw_qbfs/any-length', variants=['scalar', '1d', '2d'], fuc=['prysm.polynomials.qpoly.clenshaw_qbfs',
+                                                                       'prysm.polynomials.jacobi._initialize_alphas'])
+def clenshaw_qbfs_any(kind):
+    """clenshaw_qbfs(cs, x) = x (1 - x) sum_{k<len(cs)} b_k P_k(x) for coefficient vectors of EVERY length, where b =
+    change_basis_Qbfs_to_Pn(cs) (callee, replaced by an opaque vector of the same length: its own correctness is the bounded
+    harness's) and P_k are Forbes' auxiliary polynomials: the summation loop is cut by Clenshaw's identity (QbfsClenshawInv)."""
+    L = Int('L', 1)
+    cs = Array('cs', (L,))
+    xin, x, dims, ix = _coords(kind)
+    pick = lambda arr: elem(arr, *ix) if ix else arr
+    if MODE != 'symbolic':
+        import numpy as np
+        out = pick(call(P + 'qpoly.clenshaw_qbfs', cs, xin))
+        bs = get(P + 'qpoly.change_basis_Qbfs_to_Pn')(cs)
+        Pn = [2.0, 6 - 8 * x]
+        for k in range(2, L):
+            Pn.append((2 - 4 * x) * Pn[-1] - Pn[-2])
+        want = x * (1 - x) * sum(float(bs[k]) * Pn[k] for k in range(L))
+        check('explicit-sum', approx(out, want, 1e-7))
+        return
+    import z3
+    from pvc import symcore as sc
+    fs = {}
+    for nm in ('ghost_qbfs_prefix_sum', 'ghost_forbes_aux_P'):
+        fs[nm] = z3.Function(nm, z3.IntSort(), z3.RealSort())
+        sc.ATOM_NAMES.add(nm)
+    app = lambda nm, r: sc.SReal(fs[nm](z3.simplify(sc.lift(r).z)))
+    sc.ctx.prefer_cli = True
+    sc.ctx.axiom_log.add('ghost:qbfs_prefix_sum S(0) = 0, S(r) = S(r-1) + b[r-1] P_{r-1}(x); forbes_aux_P P_0 = 2, P_1 = 6 - 8x, '
+                         'P_k = (2 - 4x) P_{k-1} - P_{k-2} (definitions, instantiated at use sites)')
+    bs = Array('bs', (L,))
+    assume(app('ghost_qbfs_prefix_sum', 0) == 0)
+    assume(app('ghost_forbes_aux_P', 0) == 2)
+    assume(app('ghost_forbes_aux_P', 1) == 6 - 8 * x)
+
+    def Pk(k):
+        v = app('ghost_forbes_aux_P', k)
+        assume(Implies(k >= 2, v == (2 - 4 * x) * app('ghost_forbes_aux_P', k - 1) - app('ghost_forbes_aux_P', k - 2)))
+        return v
+
+    def S(r, depth=2):
+        v = app('ghost_qbfs_prefix_sum', r)
+        assume(Implies(And(r >= 1, r <= L), v == app('ghost_qbfs_prefix_sum', r - 1) + elem(bs, r - 1) * Pk(r - 1)))
+        if depth > 1:
+            S(r - 1, depth - 1)
+        return v
+    with stub('prysm.polynomials.qpoly', 'change_basis_Qbfs_to_Pn', lambda c: bs):
+        with cut_loops(P + 'qpoly.clenshaw_qbfs', {0: QbfsClenshawInv(S, Pk, x, 'q', (dims, ix))}) as f:
+            out = f(cs, xin)
+    if dims:
+        check('shape', shape_is(out, *dims))
+    check('explicit-sum', approx(pick(out), x * (1 - x) * S(L), 1e-7))
+
+
+class BackSubstInv(Invariant):
+    """loop `for i in range(M-2, -1, -1)` of change_basis_Qbfs_to_Pn, indexed by the next i: every row r > i already written solves its
+    equation of the upper-triangular system  f_r b_r + g_r b_{r+1} + h_r b_{r+2} = c_r  (b beyond M read as 0).  Stated at one arbitrary
+    row r (skolem): the body writes only bs[i], so rows above are framed."""
+    def __init__(self, rel, r, tag):
+        self.rel, self.r, self.tag = rel, r, tag
+
+    def state(self, env, i):
+        from pvc.symcore import ctx
+        M = env['M']
+        bs = Array(ctx.fresh_name('bs_' + self.tag), (M + 1,))
+        assume(Implies(self.r > i, self.rel(bs, self.r, M)))
+        return {'bs': bs, 'g': env.get('g'), 'h': env.get('h'), 'f': env.get('f')}
+
+    def holds(self, env, i):
+        yield 'rows-above-solved', Implies(self.r > i, self.rel(env['bs'], self.r, env['M']))
+
+
+@harness('C10', 'change_basis_Qbfs_to_Pn/back-substitution', variants=['array'], fuc=['prysm.polynomials.qpoly.change_basis_Qbfs_to_Pn'])
+def change_basis_rows(kind):
+    """change_basis_Qbfs_to_Pn(cs) = b solves, for EVERY length and every row r, the triangular system that defines the Qbfs
+    polynomials in terms of Forbes' auxiliary polynomials (oe-18-19-19700 A.14: f_r b_r + g_r b_{r+1} + h_r b_{r+2} = c_r, terms beyond
+    the last row absent), and has the length of cs.  Modular on f_qbfs / g_qbfs / h_qbfs (opaque, f_r != 0: they are square roots of
+    positive numbers, checked by the bounded harnesses through Qbfs itself); the back-substitution loop is cut by BackSubstInv."""
+    L = Int('L', 1)
+    cs = Array('cs', (L,))
+    if MODE != 'symbolic':
+        import numpy as np
+        bs = call(P + 'qpoly.change_basis_Qbfs_to_Pn', cs)
+        q = get(P + 'qpoly')
+        r = idx(L, 'r')
+        lhs = q.f_qbfs(r) * bs[r] + (q.g_qbfs(r) * bs[r + 1] if r + 1 < L else 0) + (q.h_qbfs(r) * bs[r + 2] if r + 2 < L else 0)
+        check('length', len(bs) == L)
+        check('row-solved', approx(float(lhs), float(cs[r]), 1e-9))
+        return
+    import z3
+    from pvc import symcore as sc
+    fs = {}
+    for nm in ('callee_f_qbfs', 'callee_g_qbfs', 'callee_h_qbfs'):
+        fs[nm] = z3.Function(nm, z3.IntSort(), z3.RealSort())
+        sc.ATOM_NAMES.add(nm)
+    app = lambda nm, k: sc.SReal(fs[nm](z3.simplify(sc.lift(k).z)))
+    sc.ctx.prefer_cli = True
+    sc.ctx.axiom_log.add('callee-contract:prysm.polynomials.qpoly.f_qbfs / g_qbfs / h_qbfs = opaque coefficient functions, f_qbfs(n) != 0')
+
+    def fq(k):
+        v = app('callee_f_qbfs', k)
+        assume(v != 0)
+        return v
+    r = idx(L, 'r')
+
+    def rel(bs, rr, M):
+        t1 = ite(rr + 1 <= M, app('callee_g_qbfs', rr) * elem(bs, ite(rr + 1 <= M, rr + 1, M)), 0)
+        t2 = ite(rr + 2 <= M, app('callee_h_qbfs', rr) * elem(bs, ite(rr + 2 <= M, rr + 2, M)), 0)
+        return eq(fq(rr) * elem(bs, rr) + t1 + t2, elem(cs, rr))
+    with stub('prysm.polynomials.qpoly', 'f_qbfs', fq), stub('prysm.polynomials.qpoly', 'g_qbfs', lambda k: app('callee_g_qbfs', k)), \
+            stub('prysm.polynomials.qpoly', 'h_qbfs', lambda k: app('callee_h_qbfs', k)):
+        with cut_loops(P + 'qpoly.change_basis_Qbfs_to_Pn', {0: BackSubstInv(rel, r, 'b')}) as f:
+            bs = f(cs)
+    check('length', shape_is(bs, L))
+    check('row-solved', rel(bs, r, L - 1))
 
 
 @harness('C10', 'bounded/fast-sums-and-lstsq', kind='bounded',
